@@ -13,6 +13,10 @@ HARNESS = [
      "quick": {"cases": 150, "len": 40, "shards": 4},
      "thorough": {"cases": 2000, "len": 60, "shards": 8},
      "search": {"cases": 600, "len": 50}},
+    {"bin": "minerpower", "tag": "minerpower",
+     "quick": {"cases": 300, "len": 30, "shards": 1},
+     "thorough": {"cases": 3000, "len": 30, "shards": 1},
+     "search": {"cases": 900, "len": 30}},
     {"bin": "deadline", "tag": "deadline",
      "quick": {"cases": 150, "len": 30, "shards": 4},
      "thorough": {"cases": 3000, "len": 40, "shards": 16},
@@ -26,6 +30,9 @@ TRUSTED_BASE = TRUSTED_BASE_COMMON + [
     "C02 model coq/Model/Power.v: hand-written transcription of the claim bookkeeping of actors/power/src/{state.rs,lib.rs} (create_miner's claim, add_to_claim with the consensus-minimum threshold, delete_claim on the cron-failure path, current_total_power); policy.minimum_consensus_power and CONSENSUS_MINER_MIN_MINERS are parameters of the initial state read from the running code by the harness (all valid PoSt proof types map to policy.minimum_consensus_power)",
     "C02 partition side: coq/Model/Partition.v (see C04) with step_delta = the delta each partition operation reports to its caller; coq/Model/Deadline.v + DeadlineC02.v give the same for every deadline operation (dstep_delta); the composition over the 48 deadlines and the handlers of actors/miner/src/lib.rs up to the UpdateClaimedPower send is NOT proved (C02_miner_claim_tracks_partial), it is covered by the handler-level monitor harness",
     "C02 harness/src/bin/power.rs: real power, init, miner, reward and cron actors on the harness VM; UpdateClaimedPower injected with miner actors (and non-miners) as callers, claims deleted through the real failing-cron-callback path; monitors = totals recomputed from the claims HAMT under the consensus-minimum rule, rejected calls change nothing",
+]
+TRUSTED_BASE += [
+    "C02 harness/src/bin/minerpower.rs (monitor only, no model): real miner, power, market, verifreg, reward, cron actors on the harness VM driven through pre-commit, ProveCommitSectors3 / NI, PoSt (full / skipped subsets / optimistic invalid proof + dispute / missed), DeclareFaults / Recovered, TerminateSectors, ExtendSectorExpiration2, ProveReplicaUpdates3, CompactPartitions, cron at every deadline end, natural expiry in short-life and long-haul cases; after every message and cron tick: claim(m) == Σ power of sectors that are proven, not faulty, not terminated (recomputed from the sectors AMT x partition bitfields) == Σ partition.active_power() == running sum of every effective UpdateClaimedPower delta found in the invocation traces; network totals == Σ claims under the consensus-minimum rule; a missed PoSt leaves the deadline's partitions with zero credited power; plus the repo's own check_state_invariants",
 ]
 ASSUMPTIONS = [
     "minimum_consensus_power > 0 (power_totals_exact); miner ids handed out by the init actor are fresh",
